@@ -3,7 +3,6 @@ package eventbus
 import (
 	"encoding/json"
 	"fmt"
-	"reflect"
 	"sync"
 )
 
@@ -170,8 +169,8 @@ func RegisterUpcast[From any, To any](bus *EventBus, upcast func(From) To) error
 		return fmt.Errorf("eventbus: upcast function cannot be nil")
 	}
 
-	fromType := reflect.TypeOf((*From)(nil)).Elem().String()
-	toType := reflect.TypeOf((*To)(nil)).Elem().String()
+	fromType := typeNameOf[From]()
+	toType := typeNameOf[To]()
 
 	upcastFunc := func(data json.RawMessage) (json.RawMessage, string, error) {
 		var from From
